@@ -61,6 +61,10 @@ def gen_cases(tier, seed):
                 if not heavy or not fully else ['default', 'shift2']
             if tier == 'thorough':
                 variants = variants + ['renamed'] * 3
+            if not heavy or not fully:
+                # target names taken from the not yet handed out part of the
+                # current generation of generic names, after an earlier expansion
+                variants = variants + ['pending']
             for v in variants:
                 if name == 't4_2':
                     dims = (4, 4) if tier == 'thorough' else (2, 2)
@@ -92,6 +96,24 @@ def index_names(case):
     default = list(it.default_idx)
     if case['variant'] == 'default':
         return default
+    if case['variant'] == 'pending':
+        # an earlier expansion has generated (and partly used) a generation of
+        # generic names i<n>, j<n>, ...; one more generic index per space is drawn
+        # through the public registry, the target names are the following letters
+        # of the same generation (legal names that are still pending there)
+        from adcgen.indices import Indices
+        lib_call(Intermediates().available['t1_2'].expand_itmd)
+        g = Indices().get_generic_indices(occ=1, virt=1)
+        cur = {'o': g[('occ', '')][0].name, 'v': g[('virt', '')][0].name}
+        out = []
+        for d in default:
+            sp, letters = ('o', 'ijklmno') if d[0] in 'ijklmno' else \
+                ('v', 'abcdefgh')
+            base, num = cur[sp][0], cur[sp][1:] or '1'
+            cands = [c + num for c in letters[letters.index(base) + 1:]] + \
+                [c + str(int(num) + 1) for c in letters]
+            out.append(next(c for c in cands if c not in out))
+        return out
     if case['variant'].startswith('shift'):
         # names taken from the low end of the alphabet, shifted: these collide
         # with the internal contracted index names of the definitions
